@@ -421,6 +421,8 @@ def units(tier, which):
     seeds = (0,) + ((1,) if th else ())
     for family in fams:
         for N in Ns:
+            if family == 'spin-dense' and N > 3:
+                continue            # dense N = 4: the polynomials have > 4e5 monomials (normal forms out of budget); symmetric families cover N = 4
             for seed in seeds:
                 lab = f"{family},N={N},seed={seed}"
                 p = dict(family=family, N=N, seed=seed)
